@@ -14,4 +14,127 @@ EXTENDS GF2
 MulSem(A, B) == Mul(A, B)
 AddMulSem(C, A, B) == Add(C, Mul(A, B))
 MulDimsOK(A, B) == A.n = B.m
+
+\* ---- C08 addition and data movement ---------------------------------------
+AddSem(A, B) == Add(A, B)
+TransposeSem(A) == Transpose(A)
+\* copy into a destination that may be larger: top-left block replaced, rest kept
+CopySem(D, A) == Embed(D, 0, 0, A)
+CopyRowSem(B, i, A, j) ==
+  Mat(B.m, B.n, [x \in Rows(B) |-> IF x = i THEN {c \in B.r[i] : c >= A.n} \cup A.r[j] ELSE B.r[x]])
+SubmatrixSem(M, lr, lc, hr, hc) == Sub(M, lr, lc, hr - lr, hc - lc)
+ConcatSem(A, B) == Concat(A, B)
+StackSem(A, B) == Stack(A, B)
+ExtractUSem(A) == LET k == Min({A.m, A.n}) IN UpperPart(Sub(A, 0, 0, k, k))
+ExtractLSem(A) == LET k == Min({A.m, A.n}) IN LowerPart(Sub(A, 0, 0, k, k))
+SetUiSem(A, v) == IF v % 2 = 1 THEN Diag(A.m, A.n) ELSE Zero(A.m, A.n)
+
+\* ---- C13 row / column operations ------------------------------------------
+SetRow(A, i, row) == Mat(A.m, A.n, [x \in Rows(A) |-> IF x = i THEN row ELSE A.r[x]])
+RowSwapSem(A, a, b) == RowSwap(A, a, b)
+ColSwapSem(A, a, b) == ColSwap(A, a, b)
+ColSwapInRowsSem(A, a, b, r0, r1) == ColSwapRows(A, a, b, r0, r1)
+\* dst := dst + src restricted to columns >= off
+RowAddOffsetSem(A, dst, src, off) == SetRow(A, dst, Xor(A.r[dst], {c \in A.r[src] : c >= off}))
+RowAddSem(A, src, dst) == RowAddOffsetSem(A, dst, src, 0)
+RowClearOffsetSem(A, row, off) == SetRow(A, row, {c \in A.r[row] : c < off})
+\* bit ranges: n bits of row x starting at column y; values are sets of bit positions 0..n-1
+XorBitsSem(A, x, y, n, bits) == SetRow(A, x, Xor(A.r[x], {y + b : b \in {v \in bits : v < n}}))
+ClearBitsSem(A, x, y, n) == SetRow(A, x, {c \in A.r[x] : c < y \/ c >= y + n})
+ReadBitsSem(A, x, y, n) == {c - y : c \in {v \in A.r[x] : v >= y /\ v < y + n}}
+WriteBitSem(A, x, y, v) == SetRow(A, x, IF v = 1 THEN A.r[x] \cup {y} ELSE A.r[x] \ {y})
+ReadBitSem(A, x, y) == IF y \in A.r[x] THEN 1 ELSE 0
+\* C[cr] from word sb on := A[ar] + B[br] from word sb on (equal widths, equal start blocks)
+CombineSem(C, cr, A, ar, B, br, sb, W) ==
+  SetRow(C, cr, {c \in C.r[cr] : c < sb * W} \cup {c \in Xor(A.r[ar], B.r[br]) : c >= sb * W})
+
+\* permutation application (LAPACK swap form), C13
+ApplyPLeftSem(A, P) == ApplyPLeft(A, P)
+ApplyPLeftTransSem(A, P) == ApplyPLeftTrans(A, P)
+ApplyPRightSem(A, P) == ApplyPRight(A, P)
+ApplyPRightTransSem(A, P) == ApplyPRightTrans(A, P)
+\* "triangular" transposed right application: swap i only on the rows above row i, ascending i
+RECURSIVE TriSwaps(_, _, _)
+TriSwaps(A, P, i) ==
+  IF i >= Len(P) THEN A
+  ELSE IF P[i + 1] = i THEN TriSwaps(A, P, i + 1)
+  ELSE TriSwaps(ColSwapRows(A, i, P[i + 1], 0, Min({i, A.m})), P, i + 1)
+ApplyPRightTransTriSem(A, P) == TriSwaps(A, P, 0)
+
+\* ---- C17 observers ------------------------------------------------------------
+EqualSem(A, B) == IF Eq(A, B) THEN 1 ELSE 0
+\* three-way comparison: dimensions first, then rows in ascending order, each row compared as the
+\* number whose bit c has weight 2^c (this is a total order, hence antisymmetric and transitive)
+RowLess(a, b) == a # b /\ Max(Xor(a, b)) \in b
+CmpSem(A, B) ==
+  IF A.m < B.m THEN -1 ELSE IF B.m < A.m THEN 1
+  ELSE IF A.n < B.n THEN -1 ELSE IF B.n < A.n THEN 1
+  ELSE LET D == {i \in Rows(A) : A.r[i] # B.r[i]} IN
+       IF D = {} THEN 0
+       ELSE LET i == Min(D) IN IF RowLess(A.r[i], B.r[i]) THEN -1 ELSE 1
+IsZeroSem(A) == IF IsZero(A) THEN 1 ELSE 0
+\* pivot search (relational): failure iff the region is zero, otherwise any row holding a one in
+\* the left-most non-zero column of the region
+Region(A, sr, sc) == {<<i, c>> \in (sr .. A.m - 1) \X (sc .. A.n - 1) : c \in A.r[i]}
+FindPivotOK(A, sr, sc, ret, r, c) ==
+  LET cols == UNION {{x \in A.r[i] : x >= sc} : i \in sr .. A.m - 1} IN
+  IF cols = {} THEN ret = 0
+  ELSE ret = 1 /\ c = Min(cols) /\ r >= sr /\ r < A.m /\ c \in A.r[r]
+FirstZeroRowSem(A) == LET nz == {i \in Rows(A) : A.r[i] # {}} IN IF nz = {} THEN 0 ELSE Max(nz) + 1
+PopCount(A) == FoldSet(LAMBDA i, acc : acc + Cardinality(A.r[i]), 0, Rows(A))
+
+\* ---- C02 echelon forms --------------------------------------------------------
+\* ret is the returned rank; full = 1: exactly the RREF; otherwise any REF with the same row space
+EchelonOK(A0, A1, ret, full) ==
+  LET E0 == Elim(A0) IN
+  /\ ret = E0.rank
+  /\ SameDims(A0, A1)
+  /\ IF full = 1 THEN \A i \in Rows(A0) : A1.r[i] = E0.r[i]
+     ELSE /\ IsREF(A1)
+          /\ LET E1 == Elim(A1) IN E1.rank = E0.rank /\ \A i \in 0 .. E0.rank - 1 : E1.r[i] = E0.r[i]
+\* completing a row echelon form: the same RREF
+TopEchelonOK(A0, A1) == IsREF(A0) => Eq(A1, RREF(A0))
+
+\* ---- C03 PLE / PLUQ -------------------------------------------------------------
+\* A1 = overwritten matrix, P, Q = permutations after the call, r = returned rank.
+\* L, U are read from A1 exactly as the documentation / tests/test_ple.c read them: for PLE the
+\* compressed echelon factor is first brought to upper triangular shape by the triangular
+\* transposed right application of Q.
+FactL(A2, r) == Mat(A2.m, r, [i \in Rows(A2) |-> {c \in A2.r[i] : c < Min({i, r})} \cup (IF i < r THEN {i} ELSE {})])
+FactU(A2, r) == Mat(r, A2.n, [i \in 0 .. r - 1 |-> {c \in A2.r[i] : c > i} \cup {i}])
+PLEOK(A0, A1, P, Q, r, isple) ==
+  LET E0 == Elim(A0)
+      A2 == IF isple = 1 THEN ApplyPRightTransTriSem(A1, Q) ELSE A1
+  IN /\ r = E0.rank
+     /\ ValidLapack(P, A0.m) /\ ValidLapack(Q, A0.n)
+     /\ \A i \in 1 .. r : Q[i] = E0.piv[i]                 \* pivot columns = column rank profile
+     /\ \A i \in r .. A0.m - 1 : \A c \in A1.r[i] : c < r  \* nothing stored outside L and U/E
+     /\ Eq(Mul(FactL(A2, r), FactU(A2, r)), ApplyPRightTrans(ApplyPLeft(A0, P), Q))
+
+\* ---- C04 TRSM: only the named triangle (with a unit diagonal) of T is read ------
+TrsmOK(variant, T, B0, X) ==
+  CASE variant = "trsm_upper_right" -> Eq(Mul(X, UnitUpper(T)), B0)
+    [] variant = "trsm_lower_right" -> Eq(Mul(X, UnitLower(T)), B0)
+    [] variant = "trsm_lower_left" -> Eq(Mul(UnitLower(T), X), B0)
+    [] variant = "trsm_upper_left" -> Eq(Mul(UnitUpper(T), X), B0)
+
+\* ---- C05 inversion ----------------------------------------------------------------
+InverseOK(A, B) == IsInverse(A, B)
+TrtriOK(U0, U1) == IsUnitUpper(U1) /\ Eq(Mul(U0, U1), Id(U0.n))
+
+\* ---- C06 solving: B has max(m,n) rows, A is padded with zero rows when m < n -------
+SolveOK(A0, B0, B1, ret) ==
+  LET m == A0.m  n == A0.n  w == B0.n
+      Apad == IF m < n THEN Stack(A0, Zero(n - m, n)) ELSE A0
+      cons == Consistent(Apad, B0)
+  IN /\ ret = (IF cons THEN 0 ELSE -1)
+     /\ ret = 0 => Eq(Mul(A0, Sub(B1, 0, 0, n, w)), Sub(B0, 0, 0, m, w))
+
+\* ---- C07 kernel: hasK = a matrix was returned; K its value --------------------------
+KernelOK(A0, hasK, K) ==
+  LET r == Rank(A0) IN
+  IF r = A0.n THEN ~hasK
+  ELSE /\ hasK /\ K.m = A0.n /\ K.n = A0.n - r
+       /\ IsZero(Mul(A0, K))
+       /\ Rank(Transpose(K)) = A0.n - r
 =============================================================================
